@@ -106,37 +106,40 @@ class SubCtx:
     """View of a Ctx that records only selected rules of a sibling property's rule function, under
     this property's own rule labels (several properties share necessary structural conditions)."""
 
-    def __init__(self, ctx, rule_map, note=''):
+    def __init__(self, ctx, rule_map, note='', key_filter=None):
         self._ctx = ctx
         self._map = rule_map
         self._note = note
+        self._kf = key_filter
         self.prog = ctx.prog
         self.prop = ctx.prop
         self.tier = ctx.tier
         self.stats = ctx.stats
 
-    def _r(self, rule):
+    def _r(self, rule, key=None):
+        if key is not None and self._kf is not None and not self._kf(key):
+            return None
         return self._map.get(rule)
 
     def ok(self, rule, key, site, msg, detail=None, nontrivial=True):
-        if self._r(rule):
+        if self._r(rule, key):
             self._ctx.ok(self._r(rule), key, site, msg, detail, nontrivial)
 
     def bad(self, rule, key, site, msg, detail=None):
-        if self._r(rule):
+        if self._r(rule, key):
             self._ctx.bad(self._r(rule), key, site, msg, detail)
 
     def unknown(self, rule, key, site, msg, detail=None):
-        if self._r(rule):
+        if self._r(rule, key):
             self._ctx.unknown(self._r(rule), key, site, msg, detail)
 
     def check(self, cond, rule, key, site, msg_ok, msg_bad=None, detail=None):
-        if self._r(rule):
+        if self._r(rule, key):
             return self._ctx.check(cond, self._r(rule), key, site, msg_ok, msg_bad, detail)
         return cond
 
     def floor(self, rule, what, found, floor):
-        if self._r(rule):
+        if self._r(rule, 'floor:' + what):
             self._ctx.floor(self._r(rule), what, found, floor)
 
     def fn(self, rule, pat):
